@@ -636,7 +636,7 @@ func firstTwoBytes(info *types.Info, fd *ast.FuncDecl) (int64, int64, string, bo
 // type receives the constant 7 on a path through type tests for GSUB subtable
 // types and the constant 9 on a path through GPOS subtable types.
 func RunExtType(w *World, r *Report) {
-	r.Rule("exttype: in (LookupList).encode the extension lookup type is the constant 7 on a path that tested a subtable for a GSUB subtable type and the constant 9 on a path that tested it for a GPOS subtable type (both assignments exist, neither is exchanged)")
+	r.Rule("exttype: in (LookupList).encode every assignment of the extension lookup type 7 lies in a case body entered through tests for GSUB subtable types, or for the shared contextual types under a comparison that admits the lookup types 5 and 6 only; every assignment of 9 in a case body for GPOS subtable types, or contextual types under a comparison that admits 7 and 8 only (both assignments exist, neither is exchanged)")
 	fn := w.Func("(opentype/gtab.LookupList).encode")
 	if fn == nil {
 		r.Fatal("(opentype/gtab.LookupList).encode does not resolve")
@@ -660,27 +660,109 @@ func RunExtType(w *World, r *Report) {
 				if !isC || (c != 7 && c != 9) {
 					continue
 				}
-				// type tests on the way to the predecessor
+				// the case body on the way to the predecessor: a block entered only through the true edges of type tests
 				fam := ""
-				for d := b.Preds[i]; d != nil; d = d.Idom() {
-					for _, di := range d.Instrs {
-						if ta, ok := di.(*ssa.TypeAssert); ok && ta.CommaOk {
-							s := ta.AssertedType.String()
-							switch {
-							case strings.Contains(s, "gtab.Gsub"):
-								if fam == "" {
-									fam = "GSUB"
-								}
-							case strings.Contains(s, "gtab.Gpos"):
-								if fam == "" {
-									fam = "GPOS"
+				var ltConds []guard
+				for d := b.Preds[i]; d != nil && fam == ""; d = d.Idom() {
+					fams := map[string]bool{}
+					all := len(d.Preds) > 0
+					for _, p := range d.Preds {
+						ifi, ok := p.Instrs[len(p.Instrs)-1].(*ssa.If)
+						if !ok || p.Succs[0] != d {
+							all = false
+							break
+						}
+						ex, ok := ifi.Cond.(*ssa.Extract)
+						if !ok {
+							all = false
+							break
+						}
+						ta, ok := ex.Tuple.(*ssa.TypeAssert)
+						if !ok {
+							all = false
+							break
+						}
+						s := ta.AssertedType.String()
+						switch {
+						case strings.Contains(s, "gtab.Gsub"):
+							fams["GSUB"] = true
+						case strings.Contains(s, "gtab.Gpos"):
+							fams["GPOS"] = true
+						case strings.Contains(s, "SeqContext"):
+							fams["CTX"] = true
+						default:
+							fams["other"] = true
+						}
+					}
+					if all && len(fams) == 1 {
+						for f := range fams {
+							fam = f
+						}
+					} else if all && len(fams) > 1 {
+						fam = "mixed"
+					}
+					if fam == "" {
+						// remember comparisons of the lookup type passed on the way up
+						if id := d.Idom(); id != nil && len(id.Instrs) > 0 {
+							if ifi, ok := id.Instrs[len(id.Instrs)-1].(*ssa.If); ok {
+								if id.Succs[0] == d && len(d.Preds) == 1 {
+									ltConds = append(ltConds, guard{ifi.Cond, true, id})
+								} else if id.Succs[1] == d && len(d.Preds) == 1 {
+									ltConds = append(ltConds, guard{ifi.Cond, false, id})
 								}
 							}
 						}
 					}
-					if fam != "" {
-						break
+				}
+				if fam == "CTX" {
+					// contextual subtables are shared: the lookup type decides (GSUB 5, 6; GPOS 7, 8)
+					fam = "contextual subtable types without a test of the lookup type"
+					for _, g := range ltConds {
+						bo, ok := g.cond.(*ssa.BinOp)
+						if !ok || fieldName(loadAddr(bo.X)) != "LookupType" {
+							continue
+						}
+						k, ok := bconstInt(bo.Y)
+						if !ok {
+							continue
+						}
+						sat := func(v int64) bool {
+							res := false
+							switch bo.Op {
+							case token.LSS:
+								res = v < k
+							case token.LEQ:
+								res = v <= k
+							case token.GTR:
+								res = v > k
+							case token.GEQ:
+								res = v >= k
+							case token.EQL:
+								res = v == k
+							case token.NEQ:
+								res = v != k
+							}
+							return res == g.then
+						}
+						gsub := sat(5) && sat(6) && !sat(7) && !sat(8)
+						gpos := !sat(5) && !sat(6) && sat(7) && sat(8)
+						switch {
+						case gsub:
+							fam = "GSUB"
+						case gpos:
+							fam = "GPOS"
+						}
 					}
+				}
+				if prev, ok := got[c]; ok && prev != fam && fam != "" {
+					if prev == "GSUB" || prev == "GPOS" {
+						if fam != "GSUB" && fam != "GPOS" {
+							got[c] = fam
+						} else {
+							got[c] = "GSUB and GPOS"
+						}
+					}
+					continue
 				}
 				got[c] = fam
 			}
@@ -703,4 +785,53 @@ func RunExtType(w *World, r *Report) {
 		r.Fail("exttype", key, w.Pos(fn.Pos()), strings.Join(problems, "; "), nil)
 	}
 	r.Floor("exttype", 1)
+	// every subtable type the package defines decides the extension type: a list that holds only
+	// types the switch does not know is written with extension type 0 once it needs extension records
+	asserted := map[string]bool{}
+	for _, b := range fn.Blocks {
+		for _, in := range b.Instrs {
+			if ta, ok := in.(*ssa.TypeAssert); ok {
+				asserted[ta.AssertedType.String()] = true
+			}
+		}
+	}
+	gp := w.All[modPath+"/opentype/gtab"]
+	if gp == nil {
+		return
+	}
+	names := gp.Types.Scope().Names()
+	for _, n := range names {
+		tn, ok := gp.Types.Scope().Lookup(n).(*types.TypeName)
+		if !ok || n == "extensionSubtable" || n == "Subtable" {
+			continue
+		}
+		if _, isIface := tn.Type().Underlying().(*types.Interface); isIface {
+			continue
+		}
+		var t types.Type
+		switch {
+		case implementsSubtable(w, types.NewPointer(tn.Type())):
+			t = types.NewPointer(tn.Type())
+		}
+		if implementsSubtable(w, tn.Type()) {
+			t = tn.Type()
+		}
+		if t == nil {
+			continue
+		}
+		k := r.MkKey("exttype", fnName(fn), "subtable type "+n)
+		if asserted[t.String()] || asserted[types.NewPointer(tn.Type()).String()] || asserted[tn.Type().String()] {
+			r.OK("exttype", k, w.Pos(fn.Pos()), "decides the extension lookup type")
+		} else {
+			r.FailC("exttype", k, []string{"unlisted"}, w.Pos(fn.Pos()), "subtable type "+n+" is not among the types from which (LookupList).encode derives the extension lookup type: a lookup list that holds only such subtables and is too large for 16-bit offsets is written with extension lookup type 0 and cannot be read back", nil)
+		}
+	}
+}
+
+// loadAddr: the address a load reads from (nil for other values).
+func loadAddr(v ssa.Value) ssa.Value {
+	if u, ok := v.(*ssa.UnOp); ok && u.Op == token.MUL {
+		return u.X
+	}
+	return nil
 }
